@@ -28,6 +28,7 @@ func (c *thClock) Sleep(d time.Duration) { c.now = c.now.Add(d) }
 type thBase struct {
 	open      bool
 	failStart bool
+	failStop  bool
 	files     [][]*cptvframe.Frame
 	bgs       []*cptvframe.Frame
 	viol      string
@@ -51,6 +52,9 @@ func (b *thBase) StopRecording() error {
 		b.viol = "stop forwarded while no file is open"
 	}
 	b.open = false
+	if b.failStop {
+		return errors.New("stop failed (the file is closed, its rename was refused)")
+	}
 	return nil
 }
 func (b *thBase) WriteFrame(f *cptvframe.Frame) error {
@@ -151,6 +155,8 @@ func runThrottleSeq(seq []byte) string {
 			elapsed += 10
 		case 'f':
 			base.failStart = !base.failStart
+		case 'g':
+			base.failStop = !base.failStop
 		}
 		if what == "" && base.viol != "" {
 			what = "C06 wrapped recorder saw: " + base.viol
@@ -161,20 +167,20 @@ func runThrottleSeq(seq []byte) string {
 			what = fmt.Sprintf("C05 %d frames reached storage in %.0f s, bound %.2f", base.writes, elapsed, bound)
 		}
 		if what != "" {
-			return fmt.Sprintf("%s; bucket=%ds min-clip=%d frames refill=%d frames/%ds fps=%d; ops=%q (op %d) [s=start w=write x=stop t=+1s T=+10s f=toggle failing base start]", what, bucketSecs, minSecs*fps, minSecs*fps, refillSecs, fps, string(seq[:k+1]), k+1)
+			return fmt.Sprintf("%s; bucket=%ds min-clip=%d frames refill=%d frames/%ds fps=%d; ops=%q (op %d) [s=start w=write x=stop t=+1s T=+10s f=toggle failing base start g=toggle failing base stop]", what, bucketSecs, minSecs*fps, minSecs*fps, refillSecs, fps, string(seq[:k+1]), k+1)
 		}
 	}
 	return ""
 }
 
 func TestReplayThrottle(t *testing.T) {
-	for _, sc := range []string{"swwwwwTfwfww", "swwwwwTfwwfTww", "sfwwTfswww", "swwwwwwTTwwwwwwxTTswwwww", "swwxswwxswwxswwxswwTswww", "swwwwwTTTTTTwwwwwwwwwwwwww"} {
+	for _, sc := range []string{"swwwwwTfwfww", "swwwwwTfwwfTww", "sfwwTfswww", "swwwwwwTTwwwwwwxTTswwwww", "swwxswwxswwxswwxswwTswww", "swwwwwTTTTTTwwwwwwwwwwwwww", "swwwgwwwwww", "sgwwwwwwTTwwwgwwxsww"} {
 		if v := runThrottleSeq([]byte(sc)); v != "" {
 			fmt.Println("REPLAY-VIOLATION " + v)
 			t.Fatal("violation reproduced on the real code")
 		}
 	}
-	ops := []byte("swxtTf")
+	ops := []byte("swxtTfg")
 	deadline := time.Now().Add(20 * time.Second)
 	for depth := 1; depth <= 9; depth++ {
 		seq := make([]byte, depth)
